@@ -219,6 +219,7 @@ def _weave_states_in_region(
                     # create or find the loop-carried block arguments we need to generate
                     # and populate the inner_state with them:
                     created_block_args: list[BlockArgument] = []
+                    existing_block_args: list[BlockArgument] = []
                     for accel in updated_accelerators:
                         arg = find_existing_block_arg(op.body.block, accel)
                         if arg is None:
@@ -228,6 +229,8 @@ def _weave_states_in_region(
                                 accfg.StateType(accel),
                             )
                             created_block_args.append(arg)
+                        else:
+                            existing_block_args.append(arg)
                         inner_state[accel] = arg
 
                     # weave vals with input states
@@ -243,6 +246,11 @@ def _weave_states_in_region(
                     # add changed states as yield ops in the loop
                     yield_op = op.body.block.last_op
                     assert isinstance(yield_op, scf.YieldOp)
+
+                    # a loop-carried state that was already there yields the state at the end of the (re-woven) body
+                    for arg in existing_block_args:
+                        assert isinstance(arg.type, accfg.StateType)
+                        yield_op.operands[arg.index - 1] = after_for_state[arg.type.accelerator.data]
 
                     # make sure we modify the for loop to add the new loop carried variables
                     for arg in created_block_args:
